@@ -13,6 +13,7 @@
 -/
 import DDProofs.Reach4
 import DDProofs.Reach4Parts
+import DDProofs.Reach4NewCore
 import DDProofs.ApiReduction
 open Std
 
@@ -33,6 +34,21 @@ theorem reachable4_from_parts (ops : List UOp4) (m : Mgr) (ext : Nat → Nat) (h
     (hg : Ops4Guarded ops ⟨m, ext⟩) :
     Good3 (run4 ops ⟨m, ext⟩).m (run4 ops ⟨m, ext⟩).ext :=
   reachable4_from ops ⟨m, ext⟩ h.good3 hg
+
+/-! ### the constructor `BDD(levels)` -/
+
+/-- **`BDD(levels)`** (`newMgrCore` = the driver's `newMgr`, `newMgr_eq_core`): for a dictionary
+(distinct names) whose levels are `0..n-1` — in whatever order they are listed, transient gaps
+included — the constructor returns a good manager with nothing held, every variable at the level
+asked for, no node; a history can start there (`reachable4_from`).  Otherwise it raises
+`AssertionError` (`newMgrCore_refused`). -/
+theorem newMgrCore_start (levels : List (String × Int)) (hnames : (levels.map (·.1)).Nodup)
+    (hchk : newMgrCheck levels = true) :
+    (newMgrCore levels).1 = .ok () ∧ Good2 (newMgrCore levels).2 (fun _ => 0) ∧
+    (∀ (v : String) (i : Nat), (newMgrCore levels).2.tbl.vars[v]? = some i ↔ (v, (i : Int)) ∈ levels) ∧
+    (∀ u : Nat, (newMgrCore levels).2.tbl.node? u = none) := by
+  obtain ⟨h1, h2, h3, h4⟩ := newMgrCore_good levels hnames hchk
+  exact ⟨h1, (goodParts_iff_good2 _ _).mp h2, h3, h4⟩
 
 /-! ### `copy.copy(bdd)` -/
 
